@@ -32,10 +32,14 @@ def d3_scale_bilinear(domain, _range, uninterpolate, interpolate):
 
 
 def d3_uninterpolateNumber(a, b):
+    if b == a:
+        return lambda x: 0.0
     return lambda x: (x - a) / (b - a)
 
 
 def d3_uninterpolateClamp(a, b):
+    if b == a:
+        return lambda x: 0.0
     return lambda x: max(0, min(1, (x - a) / (b - a)))
 
 
@@ -135,6 +139,8 @@ def d3_scale_linearTickFormat(domain, m, fmt=None):
 
 
 def d3_scale_linearPrecision(value):
+    if not value:
+        return 0
     return -math.floor(math.log(value) / math.log(10) + 0.01)
 
 
